@@ -185,6 +185,8 @@ class Evaluator:
         self.inline_local = set(inline_local)   # local fn paths to inline at call sites
         self.max_depth = max_depth
         self._summ = {}
+        self.trace = None          # when a list: every call term evaluated is appended (with resolved upvars)
+        self.conds = None          # when a list: every branch condition / match scrutinee / guard term
 
     # ------------------------------------------------------------ entry points
     def fn_env(self, path):
@@ -215,6 +217,18 @@ class Evaluator:
         self._summ[path] = res
         self._last_state = st
         return res
+
+    def traced(self, path):
+        """(summary, [call terms], [condition terms]) of one function, closures explored, upvars resolved."""
+        old = (self.trace, self.conds)
+        self.trace, self.conds = [], []
+        try:
+            env = self.fn_env(path)
+            st = _State(env)
+            t = self.ev(self.prog.root(path), st, 0)
+            return t, self.trace, self.conds
+        finally:
+            self.trace, self.conds = old
 
     def summary_with_state(self, path):
         env = self.fn_env(path)
@@ -345,7 +359,12 @@ class Evaluator:
                 fs = fs + (("..", self.ev(e["base"], st, depth)),)
             return Tm("adt", (e["adt"], e["variant"], fs), e)
         if k == "Closure":
-            return Tm("closure", (e["def"], id(env)), e, env=dict(env))
+            c = Tm("closure", (e["def"], id(env)), e, env=dict(env))
+            if self.trace is not None and depth < self.max_depth:
+                # explore the closure body once so that calls inside are traced with captured variables resolved
+                nparams = max(0, len(self.prog.params(e["def"])) - 1) if e["def"] in self.prog.bodies else 0
+                self._apply_path(e["def"], [Tm("cparam", (e["def"], i)) for i in range(nparams)], c.env, depth, closure=True)
+            return c
         if k == "Zst":
             return Tm("fnitem", (e.get("res") or e.get("fn") or e["ty"],), e)
         if k in ("NamedConst", "ConstParam", "StaticRef", "ThreadLocalRef", "ConstBlock"):
@@ -434,6 +453,8 @@ class Evaluator:
                     eff = Tm("call", (name,) + tuple(args), e)
                     st.env[vid] = Tm("mutated", (prev, eff), e)
                     st.assigned.setdefault(vid, []).append(eff)
+        if self.trace is not None:
+            self.trace.append(Tm("call", (name,) + tuple(args), e))
         if is_transparent_call(name, fn) and len(args) == 1:
             return args[0]
         norm = self.normalise_call(name, fn, args, e)
@@ -480,6 +501,8 @@ class Evaluator:
         # if let PAT = EXPR  (possibly chained with &&: only the simple form is destructured)
         if cond.get("k") == "Let":
             scrut = self.ev(cond["e"], st, depth)
+            if self.conds is not None:
+                self.conds.append(scrut)
             st_then = st.fork()
             self.bind(cond["pat"], scrut, st_then.env)
             tt = self.ev(e["then"], st_then, depth)
@@ -489,6 +512,8 @@ class Evaluator:
             wild = {"k": "Wild", "ty": cond["pat"].get("ty", "")}
             return Tm("match", (scrut, ((cond["pat"], None, tt), (wild, None, te))), e)
         c = self.ev(e["cond"], st, depth)
+        if self.conds is not None:
+            self.conds.append(c)
         st_then = st.fork()
         tt = self.ev(e["then"], st_then, depth)
         st_else = st.fork()
@@ -506,12 +531,16 @@ class Evaluator:
         if src.startswith("ForLoopDesugar"):
             return self.ev_for(e, st, depth)
         scrut = self.ev(e["scrut"], st, depth)
+        if self.conds is not None:
+            self.conds.append(scrut)
         arms = []
         forks = []
         for a in e["arms"]:
             s2 = st.fork()
             self.bind(a["pat"], scrut, s2.env)
             g = self.ev(a["guard"], s2, depth) if "guard" in a else None
+            if g is not None and self.conds is not None:
+                self.conds.append(g)
             b = self.ev(a["body"], s2, depth)
             arms.append((a["pat"], g, b))
             forks.append(s2)
